@@ -367,6 +367,8 @@ impl CopatternElaborator {
             );
         }
         let domain_kind = source_binder.domain_kind(tycker);
+        let (source_binder, variable, body) =
+            source_binder.open_k(tycker, body, &self.allocation_env)?;
         let mut first_binder = None;
         let source_clauses = std::mem::take(&mut self.clauses);
         let clauses = source_clauses
@@ -391,13 +393,24 @@ impl CopatternElaborator {
                     std::panic::Location::caller(),
                 )?;
                 first_binder.get_or_insert(binder);
-                clause.env =
-                    self.extend_forall_env_k(tycker, &source_binder, binder, &clause.env)?;
+                clause.env = self.extend_forall_env_k(
+                    tycker,
+                    &source_binder,
+                    variable,
+                    binder,
+                    &clause.env,
+                )?;
                 Ok(clause)
             })
             .collect::<ResultKont<Vec<_>>>()?;
         let binder = first_binder.expect("a nonempty forall copattern has a binder");
-        let env = self.extend_forall_env_k(tycker, &source_binder, binder, &self.allocation_env)?;
+        let env = self.extend_forall_env_k(
+            tycker,
+            &source_binder,
+            variable,
+            binder,
+            &self.allocation_env,
+        )?;
         let body = self.with_clauses(body, clauses, env).elaborate_k(tycker)?;
         let abstraction =
             Alloc::alloc(tycker, ss::Abs(binder, body), self.expected, &self.allocation_env);
@@ -406,12 +419,10 @@ impl CopatternElaborator {
     }
 
     fn extend_forall_env_k(
-        &self, tycker: &mut Tycker<'_>, source_binder: &ss::TypeBinder, binder: ss::TPatId,
-        env: &ss::TyEnv,
+        &self, tycker: &mut Tycker<'_>, source_binder: &ss::TypeBinder, variable: ss::TypeId,
+        binder: ss::TPatId, env: &ss::TyEnv,
     ) -> ResultKont<ss::TyEnv> {
-        let payload_kind = source_binder.payload_kind(tycker);
-        let witness = Alloc::alloc(tycker, source_binder.witness, payload_kind, env);
-        let argument = source_binder.pattern.introduce_payload(tycker, witness);
+        let argument = source_binder.pattern.introduce_payload(tycker, variable);
         let argument = tycker.err_p_to_k(argument)?;
         Ok(TyEnvT::new(env.clone(), Assign(binder, argument)).tyck_k(tycker, ())?.info)
     }
